@@ -88,6 +88,9 @@ func forallKey(a, b jsonObject, f func(k string) bool) bool {
 		}
 	}
 	for k := range b {
+		if _, seen := a[k]; seen {
+			continue
+		}
 		if !f(k) {
 			return false
 		}
